@@ -202,6 +202,8 @@ func runC20(c *kit.Ctx) {
 	}
 
 	// ---- R2 -----------------------------------------------------------------
+	addressesAreUsedAsRegistered(c)
+
 	c.StartRule("R2", "dial performed once per connection object", 4)
 	dialRunsUnderTheEstablishedRegion(c)
 	lit, _ := onceLiteral(dial, dialOnce)
@@ -328,9 +330,58 @@ func runC20(c *kit.Ctx) {
 	deadConnectionIsTheFailedOne(c)
 	closedErrorOnlyWhenClosed(c)
 	exceptionTableOracle(c)
+	receiveRejectsOnlyMalformed(c)
+	probeClassifiesOutcome(c)
 
 	// ---- R4 -----------------------------------------------------------------
 	c.StartRule("R4", "regions get their connection from the cache", 5)
+	connectionsComeFromTheCache(c)
+
+	// ---- R5 -----------------------------------------------------------------
+	if !c.Frozen {
+		embed(c, "R5", "a healthy, idle connection is never declared dead, so its server is not dialled a second time (the read-deadline rules of C18, run as one rule here)", 40, runC18)
+	}
+}
+
+// cacheEntriesLeaveOnlyWhenDead: shared by C20.R3 and C19.R2 (closeAll closes what the cache holds).
+func cacheEntriesLeaveOnlyWhenDead(c *kit.Ctx) {
+	p := c.P
+	regionsField := p.Field("", "clientRegionCache", "regions")
+	rccDown := p.Func("", "clientRegionCache", "clientDown")
+	cDown := p.Func("", "client", "clientDown")
+	if regionsField == nil || rccDown == nil || cDown == nil {
+		c.Unk(nil, "cache-delete", token.NoPos, "clientRegionCache.regions / clientDown not found")
+		return
+	}
+	for _, a := range p.FieldAccesses(regionsField) {
+		if a.Kind != "map-delete" && a.Kind != "store" {
+			continue
+		}
+		if a.Kind == "store" && kit.FreshObject(a.Instr) {
+			c.OK(a.Fn, "cache-init", a.Instr.Pos(), "initialisation of a fresh cache object")
+			continue
+		}
+		// which delete: delete(rcc.regions, c) (outer map)
+		c.Check(a.Fn == rccDown, a.Fn, "cache-delete", posOf(a.Instr), "connection removed from the cache in clientRegionCache.clientDown",
+			"connection removed from (or cache map replaced in) the cache outside clientRegionCache.clientDown: a live connection can be forgotten and a second one opened")
+	}
+	for _, s := range callersOf(p, kit.M("", "*clientRegionCache", "clientDown")) {
+		c.Check(s.Parent() == cDown, s.Parent(), "caller-of-cache-clientDown", s.Pos(), "called from client.clientDown", "unexpected caller of clientRegionCache.clientDown")
+	}
+}
+
+// connectionsComeFromTheCache: the connection a region is given is the one clientRegionCache.put returned for the
+// address that was looked up (or the admin connection): a region never gets a connection from anywhere else - not
+// the one it had before, which clientDown may have removed from the cache while the region was being
+// re-established. C20.R4, C09.R3.
+func connectionsComeFromTheCache(c *kit.Ctx) {
+	p := c.P
+	est := c.Anchor("", "client", "establishRegion")
+	factoryField := p.Field("", "client", "newRegionClientFn")
+	putName := kit.M("", "*clientRegionCache", "put")
+	if est == nil || factoryField == nil {
+		return
+	}
 	for _, fn := range p.Funcs {
 		if fn.Pkg == nil || fn.Pkg.Pkg.Path() != kit.Module {
 			if enclosingNamed(fn).Pkg == nil || enclosingNamed(fn).Pkg.Pkg.Path() != kit.Module {
@@ -374,35 +425,4 @@ func runC20(c *kit.Ctx) {
 		}
 	}
 
-	// ---- R5 -----------------------------------------------------------------
-	if !c.Frozen {
-		embed(c, "R5", "a healthy, idle connection is never declared dead, so its server is not dialled a second time (the read-deadline rules of C18, run as one rule here)", 40, runC18)
-	}
-}
-
-// cacheEntriesLeaveOnlyWhenDead: shared by C20.R3 and C19.R2 (closeAll closes what the cache holds).
-func cacheEntriesLeaveOnlyWhenDead(c *kit.Ctx) {
-	p := c.P
-	regionsField := p.Field("", "clientRegionCache", "regions")
-	rccDown := p.Func("", "clientRegionCache", "clientDown")
-	cDown := p.Func("", "client", "clientDown")
-	if regionsField == nil || rccDown == nil || cDown == nil {
-		c.Unk(nil, "cache-delete", token.NoPos, "clientRegionCache.regions / clientDown not found")
-		return
-	}
-	for _, a := range p.FieldAccesses(regionsField) {
-		if a.Kind != "map-delete" && a.Kind != "store" {
-			continue
-		}
-		if a.Kind == "store" && kit.FreshObject(a.Instr) {
-			c.OK(a.Fn, "cache-init", a.Instr.Pos(), "initialisation of a fresh cache object")
-			continue
-		}
-		// which delete: delete(rcc.regions, c) (outer map)
-		c.Check(a.Fn == rccDown, a.Fn, "cache-delete", posOf(a.Instr), "connection removed from the cache in clientRegionCache.clientDown",
-			"connection removed from (or cache map replaced in) the cache outside clientRegionCache.clientDown: a live connection can be forgotten and a second one opened")
-	}
-	for _, s := range callersOf(p, kit.M("", "*clientRegionCache", "clientDown")) {
-		c.Check(s.Parent() == cDown, s.Parent(), "caller-of-cache-clientDown", s.Pos(), "called from client.clientDown", "unexpected caller of clientRegionCache.clientDown")
-	}
 }
